@@ -109,6 +109,7 @@ func Load(opt LoadOptions) (*World, error) {
 			"github.com/transparency-dev/merkle",
 			"golang.org/x/mod/sumdb/tlog",
 			"github.com/transparency-dev/formats/log",
+			"github.com/cenkalti/backoff/v4",
 		},
 	}
 	for _, p := range prog.AllPackages() {
